@@ -108,7 +108,7 @@ Section Trace.
         now apply Hps.
       - now apply IHs. }
     destruct (help_index args) as [hi|].
-    - destruct (hi <? opts_and_args subs args).
+    - destruct (hi <=? opts_and_args subs args).
       + destruct (print_help parse_float getenv path _ i true) as [text r]. now left.
       + destruct (skipn (opts_and_args subs args) args) as [|arg rest]; [now left|].
         specialize (Hdesc arg rest levels paths filled Hlen).
@@ -202,18 +202,12 @@ Section Trace.
 End Trace.
 
 (** * Help short-circuits every callback, over the whole tree
-    For every tree in which no sub-command is itself named "-h" or "--help", every argument vector whose first help
-    token is preceded by no "--" runs no Before, no Action and no After — whichever command the token addresses,
-    whatever precedes and follows it, valid or not. *)
+    For EVERY tree (after D9 also one with a sub-command named "-h" or "--help") and every argument vector whose first
+    help token is preceded by no "--": no Before, no Action and no After runs — whichever command the token
+    addresses, whatever precedes and follows it, valid or not. *)
 Section HelpTrace.
   Variable parse_float : str -> option str.
   Variable getenv : str -> str.
-
-  Fixpoint help_free (c : cmd) : bool :=
-    match c with
-    | Cmd _ _ _ _ _ _ _ _ _ _ subs =>
-      forallb (fun s => negb (is_alias s s_h) && negb (is_alias s s_help) && help_free s) subs
-    end.
 
   Lemma help_index_skipn args : forall n hi, help_index args = Some hi -> n <= hi ->
     help_index (skipn n args) = Some (hi - n).
@@ -226,57 +220,38 @@ Section HelpTrace.
       rewrite (IH n j eq_refl) by lia. f_equal.
   Qed.
 
-  Lemma help_index_head a rest : help_index (a :: rest) = Some 0 -> (str_eqb a s_h || str_eqb a s_help) = true.
-  Proof.
-    cbn [help_index]. destruct (str_eqb a s_dd); [discriminate|]. destruct (str_eqb a s_h || str_eqb a s_help); [reflexivity|].
-    destruct (help_index rest); discriminate.
-  Qed.
-
-  Lemma is_alias_help_eq s a : (str_eqb a s_h || str_eqb a s_help) = true ->
-    negb (is_alias s s_h) && negb (is_alias s s_help) = true -> is_alias s a = false.
-  Proof.
-    intros Ha Hs. apply andb_true_iff in Hs as [H1 H2]. apply negb_true_iff in H1, H2.
-    apply orb_true_iff in Ha as [E|E]; apply str_eqb_eq in E; subst a; assumption.
-  Qed.
-
   Theorem parse_cmd_help_runs_nothing c : forall i policy path args levels paths filled err,
-    help_free c = true -> help_index args <> None ->
+    help_index args <> None ->
     r_trace (parse_cmd parse_float getenv c i policy path args levels paths filled err) = [].
   Proof.
     induction c as [n d ld h sp pol ds b act af subs IHsubs] using cmd_rect'.
-    intros i policy path args levels paths filled err Hfree Hh.
-    cbn [parse_cmd c_subs c_before c_after c_action]. cbn [help_free] in Hfree.
+    intros i policy path args levels paths filled err Hh.
+    cbn [parse_cmd c_subs c_before c_after c_action].
     destruct (help_index args) as [hi|] eqn:Ehi; [|congruence].
-    destruct (hi <? opts_and_args subs args) eqn:Hlt.
+    destruct (hi <=? opts_and_args subs args) eqn:Hle.
     - destruct (print_help parse_float getenv path _ i true) as [text r]. reflexivity.
-    - apply Nat.ltb_ge in Hlt.
-      pose proof (help_index_skipn args (opts_and_args subs args) hi Ehi Hlt) as Hsk.
+    - apply Nat.leb_gt in Hle.
+      pose proof (help_index_skipn args (S (opts_and_args subs args)) hi Ehi Hle) as Hsk.
       destruct (skipn (opts_and_args subs args) args) as [|arg rest] eqn:Es; [reflexivity|].
-      (* the token at the split names a sub-command, so it is not the help token: the help token is further right *)
+      (* the help token is beyond the token that names the sub-command *)
       assert (Hrest : help_index rest <> None).
-      { destruct (hi - opts_and_args subs args) as [|k] eqn:Ek.
-        - exfalso. apply help_index_head in Hsk.
-          pose proof (split_names_sub subs args) as Hn. rewrite Es in Hn. destruct Hn as (sub & Hf).
-          unfold find_sub in Hf. apply find_some in Hf as [Hin Hal].
-          rewrite forallb_forall in Hfree. specialize (Hfree sub Hin). apply andb_true_iff in Hfree as [Hna _].
-          rewrite (is_alias_help_eq sub arg Hsk Hna) in Hal. discriminate.
-        - pose proof (help_index_skipn (arg :: rest) 1 (S k) Hsk ltac:(lia)) as H1. cbn [skipn] in H1. congruence. }
-      (* the descent *)
-      clear Hsk Es Ehi Hh Hlt.
+      { assert (E : skipn (S (opts_and_args subs args)) args = rest).
+        { clear -Es. revert Es. generalize (opts_and_args subs args) as k. intros k. revert args.
+          induction k as [|k IHk]; intros [|a args] Es; cbn [skipn] in *; try discriminate; [now injection Es as _ <- | now apply IHk]. }
+        rewrite E in Hsk. congruence. }
+      clear Hsk Es Ehi Hh Hle.
       induction subs as [|s subs' IHs]; cbn [first_some]; [reflexivity|].
       inversion IHsubs as [|? ? Hps Hrest']; subst.
-      cbn [forallb] in Hfree. apply andb_true_iff in Hfree as [Hs Hfree'].
       destruct (is_alias s arg).
       + destruct (do_init parse_float getenv (c_decls s) (c_spec s)) as [si| | |]; try reflexivity.
-        apply Hps; [|exact Hrest]. apply andb_true_iff in Hs as [_ Hs]. exact Hs.
-      + apply IHs; assumption.
+        now apply Hps.
+      + now apply IHs.
   Qed.
 
   Theorem run_help_runs_nothing a argv :
-    help_free (a_root a) = true -> help_index argv <> None ->
-    r_trace (run parse_float getenv a argv) = [].
+    help_index argv <> None -> r_trace (run parse_float getenv a argv) = [].
   Proof.
-    intros Hfree Hh. unfold run.
+    intros Hh. unfold run.
     destruct (do_init parse_float getenv (root_decls a) (c_spec (a_root a))) as [i| | |]; try reflexivity.
     destruct (a_version a) as [[nm text]|].
     - destruct (match argv with [] => false | a0 :: _ => mem_str a0 (mk_opt_strs nm) end); [reflexivity|].
